@@ -105,7 +105,7 @@ def r2(ctx, F, ip):
         for rb, rt in fl.calls(lambda c: c in tables.FS_READERS):
             c = callee(rt)
             pos = tables.FS_READERS[c]
-            os_ = fl.origins(rt['args'][pos], interproc=ip)
+            os_ = fl.origins(rt['args'][pos], interproc=ip, mut_calls=True)
             in_archive = b.file.endswith('archive.rs')
             derived = in_archive or any(o.kind == 'call' and o.key in ('archive::archive_path',) for o in os_)
             if not derived:
